@@ -47,7 +47,7 @@ def shards(tier, seed):
         for c in SIGMA:
             out.append({'sub': 'strings', 'prefix': a + c, 'lens': list(range(1, full - 1)), 'bounds': b})
     k = len(SIGMA) ** 2
-    nblk = 6 if tier == 'quick' else 48
+    nblk = 6 if tier == 'quick' else 24
     for i in range(nblk):
         j = (seed * nblk + i) % k
         out.append({'sub': 'strings_block', 'prefix': SIGMA[j // 16] + SIGMA[j % 16], 'lens': [full - 1],
@@ -57,7 +57,7 @@ def shards(tier, seed):
     out.append({'sub': 'tokens', 'short': 2, 'bounds': bt})
     for f in itertools.product(TOK, repeat=3):
         out.append({'sub': 'tokens', 'first': list(f), 'max': m, 'bounds': bt})
-    tm = 8 if tier == 'quick' else 10
+    tm = 8 if tier == 'quick' else 9
     btt = f'triple-notation token sequences of length <= {tm} over {len(TTOK)} tokens, dead prefixes + 2'
     out.append({'sub': 'ttokens', 'short': 2, 'bounds': btt})
     for f in itertools.product(TTOK, repeat=3):
